@@ -162,16 +162,17 @@ def select_start_nodes(td, env, num_starts):
             + 1
         )
         if env.name == "op":
-            if (td["action_mask"][..., 1:].float().sum(-1) < num_starts).any():
-                # for the orienteering problem, we may have some nodes that are not available
-                # so we need to resample from the distribution of available nodes
-                selected = (
-                    torch.multinomial(
-                        td["action_mask"][..., 1:].float(), num_starts, replacement=True
-                    )
-                    + 1
-                )  # re-add depot index
-                selected = rearrange(selected, "b n -> (n b)")
+            # for the orienteering problem, some nodes may not be available (too far for the length budget),
+            # so we sample the start nodes of each instance from its own available nodes: without replacement
+            # if it has enough of them, with replacement otherwise
+            available = td["action_mask"][..., 1:].float()
+            replace = available.sum(-1) < num_starts
+            selected = torch.multinomial(available, num_starts, replacement=True)
+            if not replace.all():
+                selected[~replace] = torch.multinomial(
+                    available[~replace], num_starts, replacement=False
+                )
+            selected = rearrange(selected + 1, "b n -> (n b)")  # re-add depot index
     return selected
 
 
